@@ -60,6 +60,7 @@ fn exec(a: &[String]) {
         i += 2;
     }
     let p: Program = serde_json::from_str(&std::fs::read_to_string(&prog).expect("read program")).expect("decode program");
+    cvh::exec::ALLOW_CHDIR.store(true, std::sync::atomic::Ordering::SeqCst);
     let ctx = Ctx::new(cache, scratch, &p.keys, &p.blobs);
     ctx.dest_n.set(from * 1000);
     // materialise blobs before any window opens so that lazily generating them is not
